@@ -758,7 +758,13 @@ func TestRemoveAndPutBackAcrossChildren(t *testing.T) {
 		sc := statecache.NewStateCache()
 		bc := statecache.NewBlockCache(sc, statecache.Block{Round: 1, Hash: "b1"})
 		version := int64(gen.Pick(rt, []int{0, 1, 2}, "version"))
+		// half of the time the block state is itself the child of a state above it, into which it is merged at the end
+		var top *util.MerklePatriciaTrie
 		block := util.NewMerklePatriciaTrie(util.NewLevelNodeDB(util.NewMemoryNodeDB(), base, false), util.Sequence(version), nil, statecache.NewTransactionCache(bc))
+		if gen.Chance(rt, 50, "threelevels") {
+			top = block
+			block = util.NewMerklePatriciaTrie(util.NewLevelNodeDB(util.NewMemoryNodeDB(), top.GetNodeDB(), false), top.GetVersion(), top.GetRoot(), statecache.NewTransactionCache(bc))
+		}
 		child := func() *util.MerklePatriciaTrie {
 			return util.NewMerklePatriciaTrie(util.NewLevelNodeDB(util.NewMemoryNodeDB(), block.GetNodeDB(), false), block.GetVersion(), block.GetRoot(), statecache.NewTransactionCache(bc))
 		}
@@ -787,13 +793,52 @@ func TestRemoveAndPutBackAcrossChildren(t *testing.T) {
 		}
 		check("after the first merge")
 		putBacks := 0
-		for ci := 1; ci <= gen.Uniform(rt, 1, 4, "nchildren"); ci++ {
+		// a key that the first child created with value hv1 (new in this block)
+		hk, hstep := "", 0
+		var hv1 []byte
+		if ks := mptkit.SortedKeys(model); len(ks) > 0 {
+			hk = gen.Pick(rt, ks, "historykeypick")
+			hv1 = append([]byte(nil), model[hk]...)
+		}
+		for ci := 1; ci <= gen.Uniform(rt, 1, 5, "nchildren"); ci++ {
 			c := child()
 			live := mptkit.SortedKeys(model)
 			if len(live) == 0 {
 				break
 			}
 			k := gen.Pick(rt, live, "putback")
+			if hk != "" && gen.Chance(rt, 60, "historykey") {
+				// one key's history over several children: new value, another value, gone, back with the first value
+				step := "v1"
+				if cur, isLive := model[hk]; isLive && bytes.Equal(cur, hv1) {
+					step = "v2"
+				} else if isLive {
+					step = "gone"
+				}
+				hstep++
+				var err error
+				switch step {
+				case "v2":
+					model[hk] = []byte{0x22, byte(hstep)}
+					_, err = mptkit.InsertReused(c, hk, model[hk])
+				case "gone":
+					delete(model, hk)
+					_, err = c.Delete(util.Path(hk))
+				default:
+					model[hk] = append([]byte(nil), hv1...)
+					_, err = mptkit.InsertReused(c, hk, hv1)
+				}
+				if err != nil {
+					rt.Fatalf("child %d: %s of %q: %v", ci, step, hk, err)
+				}
+				log = append(log, fmt.Sprintf("child %d: key %q %s", ci, hk, step))
+				if err := block.MergeMPTChanges(c); err != nil {
+					rt.Fatalf("merge of child %d: %v\nsteps: %v", ci, err, log)
+				}
+				check(fmt.Sprintf("after the merge of child %d", ci))
+				putBacks++
+				continue
+			}
 			if _, err := c.Delete(util.Path(k)); err != nil {
 				rt.Fatalf("child %d: delete %q: %v", ci, k, err)
 			}
@@ -810,6 +855,14 @@ func TestRemoveAndPutBackAcrossChildren(t *testing.T) {
 				rt.Fatalf("merge of child %d: %v\nsteps: %v", ci, err, log)
 			}
 			check(fmt.Sprintf("after the merge of child %d", ci))
+		}
+		if top != nil {
+			// the block state goes into the state above it: that one reads the same content, warm and cold
+			if err := top.MergeMPTChanges(block); err != nil {
+				rt.Fatalf("merge of the block state into the state above it: %v\nsteps: %v", err, log)
+			}
+			block = top
+			check("after the block state was merged into the state above it")
 		}
 		ev.Case(fmt.Sprint(log), putBacks >= 1, "remove-and-put-back-across-children")
 	})
